@@ -94,6 +94,12 @@ func (c17) Gen(r *sim.Rng, tier string) *scn.Scn {
 		}
 	}
 	s.P["partial"] = int64(r.Intn(2)) // 1: AllowPartial on decode
+	if r.Chance(1, 6) {
+		s.P["discard"] = 1 // DiscardUnknown on both sides
+	}
+	if r.Chance(1, 5) {
+		s.P["reclimit"] = int64([]int{2, 3, 4, 6, 100}[r.Intn(5)]) // RecursionLimit on both sides
+	}
 	var ops []scn.Op
 	n := r.Range(3, 14)
 	for i := 0; i < n; i++ {
@@ -111,9 +117,11 @@ func (c17) Gen(r *sim.Rng, tier string) *scn.Scn {
 }
 
 type c17Pair struct {
-	typ  string
-	L, E proto.Message
-	bufL []byte // the buffer L was decoded from (owned by the harness, may be scribbled)
+	typ      string
+	L, E     proto.Message
+	bufL     []byte // the buffer L was decoded from (owned by the harness, may be scribbled)
+	discard  bool
+	reclimit int
 }
 
 // errClass is the verdict the property speaks of: accepted or rejected. (The
@@ -129,8 +137,8 @@ func errClass(err error) string {
 // decodeBoth decodes wire into the pair (fresh or merging) and compares verdicts.
 func (p *c17Pair) decodeBoth(wire []byte, merge, partial, lazyOnL bool) (bad string, failed bool) {
 	bufL := append([]byte(nil), wire...)
-	uoL := proto.UnmarshalOptions{AllowPartial: partial, Merge: merge, NoLazyDecoding: !lazyOnL}
-	uoE := proto.UnmarshalOptions{AllowPartial: partial, Merge: merge, NoLazyDecoding: true}
+	uoL := proto.UnmarshalOptions{AllowPartial: partial, Merge: merge, NoLazyDecoding: !lazyOnL, DiscardUnknown: p.discard, RecursionLimit: p.reclimit}
+	uoE := proto.UnmarshalOptions{AllowPartial: partial, Merge: merge, NoLazyDecoding: true, DiscardUnknown: p.discard, RecursionLimit: p.reclimit}
 	errL := uoL.Unmarshal(bufL, p.L)
 	errE := uoE.Unmarshal(append([]byte(nil), wire...), p.E)
 	if errClass(errL) != errClass(errE) {
@@ -301,7 +309,7 @@ func (c17) Run(s *scn.Scn, x *sim.Exec) {
 	}
 	typ := s.Objects[0].Type
 	partial := s.P["partial"] == 1
-	p := &c17Pair{typ: typ, L: gen.NewMsg(typ), E: gen.NewMsg(typ)}
+	p := &c17Pair{typ: typ, L: gen.NewMsg(typ), E: gen.NewMsg(typ), discard: s.P["discard"] == 1, reclimit: int(s.P["reclimit"])}
 	bad, failed := p.decodeBoth(s.Objects[0].Wire, false, partial, true)
 	if bad != "" {
 		cls, det, _ := strings.Cut(bad, ": ")
